@@ -536,7 +536,11 @@ where
 
 	let orig_proof_info = tx_vec[0].clone().payment_proof;
 
-	if orig_proof_info.is_some() && slate.payment_proof.is_none() {
+	// a proof is expected if the log entry says so, or if the context says one was
+	// requested (the entry may have been created from a slate that had none)
+	let proof_requested =
+		orig_proof_info.is_some() || context.payment_proof_derivation_index.is_some();
+	if proof_requested && slate.payment_proof.is_none() {
 		return Err(Error::PaymentProof(
 			"Expected Payment Proof for this Transaction is not present".to_owned(),
 		));
